@@ -1,3 +1,125 @@
 package dsim
 
-func selftestMain() int { return 2 }
+import (
+	"encoding/json"
+	"fmt"
+	"os"
+	"path/filepath"
+	"sort"
+	"sync"
+)
+
+// selftestMain is the determinism self-test: for every registered property the
+// same seeds are executed several times, in different processes, at different
+// GOMAXPROCS, in the middle of a batch and alone; the per-run hashes (choice
+// tape + action/observation trace + fired faults + verdict) must be identical.
+func selftestMain() int {
+	os.MkdirAll(filepath.Join(verifRoot, ".build"), 0755)
+	scratch, err := os.MkdirTemp(filepath.Join(verifRoot, ".build"), "selftest-")
+	if err != nil {
+		fmt.Fprintln(os.Stderr, err)
+		return 2
+	}
+	defer os.RemoveAll(scratch)
+	nSeeds := envInt("VERIF_SELFTEST_SEEDS", 64)
+	var props []string
+	for id := range registry {
+		props = append(props, id)
+	}
+	sort.Strings(props)
+	if only := os.Getenv("VERIF_PROP"); only != "" {
+		props = []string{only}
+	}
+	type job struct {
+		prop, label string
+		gmp         int
+		start, n    int
+		hashes      []uint64
+		err         string
+	}
+	var jobs []*job
+	for _, p := range props {
+		for _, g := range []int{1, 1, 4, 16} {
+			jobs = append(jobs, &job{prop: p, label: fmt.Sprintf("batch/GOMAXPROCS=%d", g), gmp: g, n: nSeeds})
+		}
+		for _, k := range []int{3, nSeeds / 2, nSeeds - 1} {
+			jobs = append(jobs, &job{prop: p, label: fmt.Sprintf("alone@%d", k), gmp: 1, start: k, n: 1})
+		}
+	}
+	sem := make(chan struct{}, 16)
+	var wg sync.WaitGroup
+	for i, j := range jobs {
+		wg.Add(1)
+		sem <- struct{}{}
+		go func(i int, j *job) {
+			defer wg.Done()
+			defer func() { <-sem }()
+			outf := filepath.Join(scratch, fmt.Sprintf("j%d.json", i))
+			env := []string{"VERIF_ROLE=worker", fmt.Sprintf("GOMAXPROCS=%d", j.gmp), "GODEBUG=asyncpreemptoff=1", "VERIF_PROP=" + j.prop,
+				"VERIF_TIER=quick", "VERIF_SEED=777", "VERIF_WIDX=0", "VERIF_WN=1", fmt.Sprintf("VERIF_START=%d", j.start), fmt.Sprintf("VERIF_MAXRUNS=%d", j.n),
+				"VERIF_BUDGET_MS=600000", "VERIF_NOSWEEP=1", "VERIF_NOSHRINK=1", "VERIF_RUNHASHES=1", "VERIF_OUT=" + outf}
+			code, se := runChild(env, 4096)
+			if code != 0 {
+				j.err = fmt.Sprintf("exit %d: %s", code, short(se, 300))
+				return
+			}
+			b, err := os.ReadFile(outf)
+			if err != nil {
+				j.err = err.Error()
+				return
+			}
+			var wo WorkerOut
+			if json.Unmarshal(b, &wo) != nil {
+				j.err = "bad worker output"
+				return
+			}
+			if len(wo.Harness) > 0 {
+				j.err = "harness error: " + wo.Harness[0]
+			}
+			j.hashes = wo.RunHashes
+		}(i, j)
+	}
+	wg.Wait()
+	bad := 0
+	for _, p := range props {
+		var ref []uint64
+		line := fmt.Sprintf("selftest %s:", p)
+		for _, j := range jobs {
+			if j.prop != p {
+				continue
+			}
+			if j.err != "" {
+				fmt.Printf("selftest %s %s: ERROR %s\n", p, j.label, j.err)
+				bad++
+				continue
+			}
+			if ref == nil {
+				ref = j.hashes
+				line += fmt.Sprintf(" %d seeds;", len(ref))
+				continue
+			}
+			diff := 0
+			for k, h := range j.hashes {
+				if j.start+k >= len(ref) || ref[j.start+k] != h {
+					diff++
+				}
+			}
+			if len(j.hashes) != j.n {
+				diff++
+			}
+			if diff > 0 {
+				line += fmt.Sprintf(" %s DIFFERS(%d);", j.label, diff)
+				bad++
+			} else {
+				line += fmt.Sprintf(" %s ok;", j.label)
+			}
+		}
+		fmt.Println(line)
+	}
+	if bad > 0 {
+		fmt.Printf("HARNESS-ERROR: determinism self-test failed (%d divergences)\n", bad)
+		return 2
+	}
+	fmt.Println("selftest: all per-run hashes identical across executions, processes, GOMAXPROCS 1/4/16 and batch position")
+	return 0
+}
